@@ -267,8 +267,8 @@ def specs(tier, seed, concrete=False):
         for s in sels:
             if [name, s] not in ACLS:
                 ACLS.append([name, s])
-    rows, info = covering_array(G.DIMS, t=2 if tier == "quick" else 3, seed=seed + 2, valid=G.row_valid,
-                                candidates=30 if tier == "quick" else 12)
+    rows, info = ([], {}) if concrete else covering_array(G.DIMS, t=2 if tier == "quick" else 3, seed=seed + 2, valid=G.row_valid,
+                                                           candidates=30 if tier == "quick" else 12)
     return [
         Spec("address", h_address, [{"src": p, "form": f} for p in ("ios", "nxos") for f in G.ADDR_FORMS], goals=["converted"],
              describe="Address.platform setter, all forms, both directions"),
